@@ -74,7 +74,7 @@ var opKinds = []string{
 	"own", "own", "own", "own",
 	"timeout", "timeout",
 	"fair", "fair", "fair",
-	"byzvote", "byzvote", "byzprop", "split",
+	"byzvote", "byzvote", "byzclaim", "byzprop", "split",
 	"dup", "drop", "crashrestart", "crash", "restart", "sync", "amnesia", "stalepolka", "lateproposal",
 }
 
